@@ -28,6 +28,8 @@ DoRT ==
                    "a select operation lost its where member (an empty where selects every row; without the member the request is invalid)",
                    [t |-> Ev.t, id |-> Ev.id, tree2 |-> Ev.tree2])
             /\ Chk(Ev.equal, "C12", "the value decoded from the re-encoding differs from the value first decoded", [t |-> Ev.t, id |-> Ev.id, tree2 |-> Ev.tree2])
+            /\ Chk(Ev.byValue /\ Eq(DescOf(Ev.t), Ev.tree2, Ev.treeV) /\ Eq(DescOf(Ev.t), Ev.tree2, Ev.treeL), "C12", "a value encodes differently when handed to the encoder by value or inside a parameter list than by pointer",
+                   [t |-> Ev.t, id |-> Ev.id])
 
 DoDec ==
     /\ Ev.ev = "dec"
